@@ -263,19 +263,19 @@ Section FProofs.
   Context (rf : bool).
   Definition lo : N := if rf then 1 else 0.
 
-  Definition nkey (nds : list fnode) (nd : nat) : option N := fkey (nth nd nds dfnode).
-  Definition nval (nds : list fnode) (nd : nat) : N := fval (nth nd nds dfnode).
+  Definition ndkey (nds : list fnode) (nd : nat) : option N := fkey (nth nd nds dfnode).
+  Definition ndval (nds : list fnode) (nd : nat) : N := fval (nth nd nds dfnode).
 
   (** Index [i] is published with key [ok]. *)
   Definition pub_at (nds : list fnode) (mp : list nat) (i : N) (ok : option N) : Prop :=
-    exists nd, In nd mp /\ nval nds nd = i /\ nkey nds nd = ok.
+    exists nd, In nd mp /\ ndval nds nd = i /\ ndkey nds nd = ok.
 
   Definition handle_ok (nds : list fnode) (mp : list nat) (nx : N) (h : handle) : Prop :=
     match h with
     | mkHandle None None => True
     | mkHandle (Some s) (Some nd) =>
-        (nd < length nds)%nat /\ nval nds nd = s /\ nkey nds nd = None /\ ~ In nd mp
-        /\ lo <= s < nx /\ (forall nd', In nd' mp -> nval nds nd' <> s)
+        (nd < length nds)%nat /\ ndval nds nd = s /\ ndkey nds nd = None /\ ~ In nd mp
+        /\ lo <= s < nx /\ (forall nd', In nd' mp -> ndval nds nd' <> s)
     | _ => False
     end.
 
@@ -287,19 +287,19 @@ Section FProofs.
     M_lo : lo <= nx;
     M_nodup : NoDup mp;
     M_pub : forall nd, In nd mp ->
-              (nd < length nds)%nat /\ (exists k, nkey nds nd = Some k)
-              /\ lo <= nval nds nd < nx /\ nval nds nd < cnt
-              /\ nth (N.to_nat (nval nds nd)) sl None = Some nd;
-    M_keys : NoDup (map (nkey nds) mp);
+              (nd < length nds)%nat /\ (exists k, ndkey nds nd = Some k)
+              /\ lo <= ndval nds nd < nx /\ ndval nds nd < cnt
+              /\ nth (N.to_nat (ndval nds nd)) sl None = Some nd;
+    M_keys : NoDup (map (ndkey nds) mp);
     M_hok : forall t, (t < n)%nat -> handle_ok nds mp nx (nth t hs dhandle);
     M_hdist : forall t t', (t < n)%nat -> (t' < n)%nat -> t <> t' ->
                 (forall s, hslot (nth t hs dhandle) = Some s -> hslot (nth t' hs dhandle) <> Some s)
                 /\ (forall nd, hnode (nth t hs dhandle) = Some nd -> hnode (nth t' hs dhandle) <> Some nd);
     M_slots : forall i nd, nth i sl None = Some nd ->
-                (In nd mp /\ nval nds nd = N.of_nat i)
+                (In nd mp /\ ndval nds nd = N.of_nat i)
                 \/ (exists t, (t < n)%nat /\ nth t hs dhandle = mkHandle (Some (N.of_nat i)) (Some nd));
     M_cov : forall i, lo <= i < nx ->
-              (exists nd, In nd mp /\ nval nds nd = i)
+              (exists nd, In nd mp /\ ndval nds nd = i)
               \/ (exists t, (t < n)%nat /\ hslot (nth t hs dhandle) = Some i) }.
 
   Definition is_OIns (o : option op) : Prop := exists k, o = Some (OIns k).
@@ -433,37 +433,37 @@ Section FProofs.
   Qed.
 
   Lemma map_find_some st k ex : map_find st k = Some ex ->
-    In ex (fmap st) /\ nkey (fnodes st) ex = Some k.
+    In ex (fmap st) /\ ndkey (fnodes st) ex = Some k.
   Proof.
     unfold map_find. intros H. apply find_some in H as [H1 H2]. split; auto.
-    unfold nkey. destruct (fkey (nth ex (fnodes st) dfnode)); [|discriminate].
+    unfold ndkey. destruct (fkey (nth ex (fnodes st) dfnode)); [|discriminate].
     apply N.eqb_eq in H2. congruence.
   Qed.
 
   Lemma map_find_none st k : map_find st k = None ->
-    forall nd, In nd (fmap st) -> nkey (fnodes st) nd <> Some k.
+    forall nd, In nd (fmap st) -> ndkey (fnodes st) nd <> Some k.
   Proof.
     unfold map_find. intros H nd Hnd Hk. pose proof (find_none _ _ H nd Hnd) as Hf.
-    cbn beta in Hf. unfold nkey in Hk. rewrite Hk in Hf. rewrite N.eqb_refl in Hf. discriminate.
+    cbn beta in Hf. unfold ndkey in Hk. rewrite Hk in Hf. rewrite N.eqb_refl in Hf. discriminate.
   Qed.
 
   Lemma handle_some nds mp nx h s : handle_ok nds mp nx h -> hslot h = Some s ->
     exists nd, h = mkHandle (Some s) (Some nd)
-      /\ (nd < length nds)%nat /\ nval nds nd = s /\ nkey nds nd = None /\ ~ In nd mp
-      /\ lo <= s < nx /\ (forall nd', In nd' mp -> nval nds nd' <> s).
+      /\ (nd < length nds)%nat /\ ndval nds nd = s /\ ndkey nds nd = None /\ ~ In nd mp
+      /\ lo <= s < nx /\ (forall nd', In nd' mp -> ndval nds nd' <> s).
   Proof.
     unfold handle_ok. destruct h as [[s0|] [nd|]]; cbn [hslot]; intros H E; try discriminate;
       try contradiction. inversion E; subst. exists nd. tauto.
   Qed.
 
-  Lemma nkey_snoc nds x nd : (nd < length nds)%nat -> nkey (nds ++ [x]) nd = nkey nds nd.
-  Proof. intros. unfold nkey. rewrite app_nth1; auto. Qed.
-  Lemma nval_snoc nds x nd : (nd < length nds)%nat -> nval (nds ++ [x]) nd = nval nds nd.
-  Proof. intros. unfold nval. rewrite app_nth1; auto. Qed.
-  Lemma nkey_setn_neq nds a x nd : a <> nd -> nkey (setn nds a x) nd = nkey nds nd.
-  Proof. intros. unfold nkey. rewrite nth_setn_neq; auto. Qed.
-  Lemma nval_setn_neq nds a x nd : a <> nd -> nval (setn nds a x) nd = nval nds nd.
-  Proof. intros. unfold nval. rewrite nth_setn_neq; auto. Qed.
+  Lemma ndkey_snoc nds x nd : (nd < length nds)%nat -> ndkey (nds ++ [x]) nd = ndkey nds nd.
+  Proof. intros. unfold ndkey. rewrite app_nth1; auto. Qed.
+  Lemma ndval_snoc nds x nd : (nd < length nds)%nat -> ndval (nds ++ [x]) nd = ndval nds nd.
+  Proof. intros. unfold ndval. rewrite app_nth1; auto. Qed.
+  Lemma ndkey_setn_neq nds a x nd : a <> nd -> ndkey (setn nds a x) nd = ndkey nds nd.
+  Proof. intros. unfold ndkey. rewrite nth_setn_neq; auto. Qed.
+  Lemma ndval_setn_neq nds a x nd : a <> nd -> ndval (setn nds a x) nd = ndval nds nd.
+  Proof. intros. unfold ndval. rewrite nth_setn_neq; auto. Qed.
 
   (** Slot = NextSlot++ ; Handles[H] := (Slot, node(Slot)). *)
   Lemma mem_reserve n sl nds mp nx cnt hs t :
@@ -477,20 +477,20 @@ Section FProofs.
     - rewrite length_setn. auto.
     - lia.
     - intros nd Hnd. destruct (m6 nd Hnd) as (a & b & c & d & e).
-      rewrite nkey_snoc, nval_snoc by auto. rewrite app_length. simpl. repeat split; auto; lia.
-    - rewrite (map_ext_in _ (nkey nds)); auto. intros nd Hnd. apply nkey_snoc. auto.
+      rewrite ndkey_snoc, ndval_snoc by auto. rewrite app_length. simpl. repeat split; auto; lia.
+    - rewrite (map_ext_in _ (ndkey nds)); auto. intros nd Hnd. apply ndkey_snoc. auto.
     - intros t0 Ht0. rewrite nth_setn, m3.
       destruct (Nat.eqb t t0 && Nat.ltb t0 n)%bool eqn:E.
-      + cbn [handle_ok]. rewrite app_length. simpl. unfold nval, nkey.
+      + cbn [handle_ok]. rewrite app_length. simpl. unfold ndval, ndkey.
         rewrite app_nth2 by lia. rewrite Nat.sub_diag. cbn. repeat split; auto; try lia.
         * intros Hi. apply Hb in Hi. lia.
         * intros nd' Hnd'. destruct (m6 nd' Hnd') as (a & b & c & d & e).
-          fold (nval (nds ++ [mkFNode None nx]) nd'). rewrite nval_snoc by auto. lia.
+          fold (ndval (nds ++ [mkFNode None nx]) nd'). rewrite ndval_snoc by auto. lia.
       + pose proof (m8 t0 Ht0) as Hok. unfold handle_ok in *.
         destruct (nth t0 hs dhandle) as [[s0|] [nd0|]]; auto.
         destruct Hok as (a & b & c & d & e & f). rewrite app_length. simpl.
-        rewrite nkey_snoc, nval_snoc by auto. repeat split; auto; try lia.
-        intros nd' Hnd'. rewrite nval_snoc by auto. auto.
+        rewrite ndkey_snoc, ndval_snoc by auto. repeat split; auto; try lia.
+        intros nd' Hnd'. rewrite ndval_snoc by auto. auto.
     - intros t1 t2 Ht1 Ht2 Hne. rewrite !nth_setn, m3.
       destruct (Nat.eqb t t1 && Nat.ltb t1 n)%bool eqn:E1;
         destruct (Nat.eqb t t2 && Nat.ltb t2 n)%bool eqn:E2; try lia.
@@ -506,13 +506,13 @@ Section FProofs.
             try contradiction. inversion Hx; subst. lia.
       + apply m9; auto.
     - intros i nd Hi. destruct (m10 i nd Hi) as [[H1 H2]|(t0 & Ht0 & H0)].
-      + left. split; auto. rewrite nval_snoc; auto.
+      + left. split; auto. rewrite ndval_snoc; auto.
       + right. exists t0. split; auto. rewrite nth_setn_neq; auto. intros ->. rewrite Hd in H0.
         discriminate.
     - intros i Hi. destruct (N.eq_dec i nx) as [->|Hne].
       + right. exists t. split; auto. rewrite nth_setn_eq by lia. reflexivity.
       + destruct (m11 i ltac:(lia)) as [(nd & H1 & H2)|(t0 & Ht0 & H0)].
-        * left. exists nd. split; auto. rewrite nval_snoc; auto.
+        * left. exists nd. split; auto. rewrite ndval_snoc; auto.
         * right. exists t0. split; auto. rewrite nth_setn_neq; auto. intros ->. rewrite Hd in H0.
           discriminate.
   Qed.
@@ -561,7 +561,7 @@ Section FProofs.
     MemOK n sl nds mp nx cnt hs -> (t < n)%nat ->
     nth t hs dhandle = mkHandle (Some s) (Some nd) -> s < cnt ->
     nth (N.to_nat s) sl None = Some nd ->
-    (forall nd', In nd' mp -> nkey nds nd' <> Some k) ->
+    (forall nd', In nd' mp -> ndkey nds nd' <> Some k) ->
     MemOK n sl (setn nds nd (mkFNode (Some k) s)) (nd :: mp) nx cnt (setn hs t dhandle).
   Proof.
     intros HM Ht Hh Hs Hsl Hk. destruct HM as [m1 m2 m3 m4 m5 m6 m7 m8 m9 m10 m11].
@@ -574,13 +574,13 @@ Section FProofs.
     - rewrite length_setn. auto.
     - constructor; auto.
     - intros nd' [<-|Hnd'].
-      + rewrite length_setn. unfold nkey, nval. rewrite Hnew. cbn. repeat split; eauto; lia.
+      + rewrite length_setn. unfold ndkey, ndval. rewrite Hnew. cbn. repeat split; eauto; lia.
       + destruct (m6 nd' Hnd') as (a' & b' & c' & d' & e').
-        rewrite length_setn, nkey_setn_neq, nval_setn_neq by auto. repeat split; auto; lia.
+        rewrite length_setn, ndkey_setn_neq, ndval_setn_neq by auto. repeat split; auto; lia.
     - cbn [map]. constructor.
-      + unfold nkey at 1. rewrite Hnew. cbn. intros Hi. apply in_map_iff in Hi as (nd' & H1 & H2).
-        rewrite nkey_setn_neq in H1 by auto. apply (Hk nd' H2). auto.
-      + rewrite (map_ext_in _ (nkey nds)); auto. intros nd' Hnd'. apply nkey_setn_neq. auto.
+      + unfold ndkey at 1. rewrite Hnew. cbn. intros Hi. apply in_map_iff in Hi as (nd' & H1 & H2).
+        rewrite ndkey_setn_neq in H1 by auto. apply (Hk nd' H2). auto.
+      + rewrite (map_ext_in _ (ndkey nds)); auto. intros nd' Hnd'. apply ndkey_setn_neq. auto.
     - intros t0 Ht0. rewrite nth_setn, m3.
       destruct (Nat.eqb t t0 && Nat.ltb t0 n)%bool eqn:E; [exact I|].
       assert (Hnt : t0 <> t) by lia.
@@ -589,11 +589,11 @@ Section FProofs.
       destruct Hok as (a0 & b0 & c0 & d0 & e0 & f0). rewrite Hh in Hd1, Hd2. cbn in Hd1, Hd2.
       assert (nd0 <> nd) by (intros ->; eapply Hd2; eauto).
       assert (s0 <> s) by (intros ->; eapply Hd1; eauto).
-      rewrite length_setn, nkey_setn_neq, nval_setn_neq by auto.
+      rewrite length_setn, ndkey_setn_neq, ndval_setn_neq by auto.
       repeat split; auto; try lia.
       * intros [Hc|Hc]; auto.
-      * intros nd' [<-|Hnd']; [unfold nval; rewrite Hnew; cbn; auto|].
-        rewrite nval_setn_neq by auto. auto.
+      * intros nd' [<-|Hnd']; [unfold ndval; rewrite Hnew; cbn; auto|].
+        rewrite ndval_setn_neq by auto. auto.
     - intros t1 t2 Ht1 Ht2 Hn12. rewrite !nth_setn, m3.
       destruct (Nat.eqb t t1 && Nat.ltb t1 n)%bool eqn:E1;
         destruct (Nat.eqb t t2 && Nat.ltb t2 n)%bool eqn:E2; try lia;
@@ -601,18 +601,18 @@ Section FProofs.
         try (split; intros x Hx Hc; discriminate).
       apply m9; auto.
     - intros i nd0 Hi. destruct (m10 i nd0 Hi) as [[H1 H2]|(t0 & Ht0 & H0)].
-      + left. split; [right; auto|]. rewrite nval_setn_neq; auto.
+      + left. split; [right; auto|]. rewrite ndval_setn_neq; auto.
       + destruct (Nat.eq_dec t0 t) as [->|Hnt].
         * assert (Hq : nd0 = nd /\ N.of_nat i = s) by (rewrite Hh in H0; inversion H0; auto).
           destruct Hq as [-> Hq]. left. split; [left; auto|].
-          unfold nval. rewrite Hnew. cbn. lia.
+          unfold ndval. rewrite Hnew. cbn. lia.
         * right. exists t0. split; auto. rewrite nth_setn_neq; auto.
     - intros i Hi. destruct (m11 i Hi) as [(nd' & H1 & H2)|(t0 & Ht0 & H0)].
-      + left. exists nd'. split; [right; auto|]. rewrite nval_setn_neq; auto.
+      + left. exists nd'. split; [right; auto|]. rewrite ndval_setn_neq; auto.
       + destruct (Nat.eq_dec t0 t) as [->|Hnt].
         * assert (Hq : i = s) by (rewrite Hh in H0; cbn in H0; inversion H0; auto).
           left. exists nd. split; [left; auto|].
-          unfold nval. rewrite Hnew. cbn. auto.
+          unfold ndval. rewrite Hnew. cbn. auto.
         * right. exists t0. split; auto. rewrite nth_setn_neq; auto.
   Qed.
 
@@ -625,7 +625,7 @@ Section FProofs.
     destruct (m10 _ _ En) as [[H1 H2]|(t & Ht & H0)].
     - right. exists nd. repeat split; auto. lia.
     - left. pose proof (m8 t Ht) as Hok. rewrite H0 in Hok. cbn [handle_ok] in Hok.
-      unfold nkey in Hok. tauto.
+      unfold ndkey in Hok. tauto.
   Qed.
 
   Ltac kill_mismatch Hloc :=
@@ -668,7 +668,7 @@ Section FProofs.
       + lia.
       + intros i ok (nd & H1 & H2 & H3). exists nd.
         destruct (M_pub _ _ _ _ _ _ _ HM nd H1) as (Hb & _).
-        unfold nval, nkey in *. rewrite app_nth1 by auto. auto.
+        unfold ndval, ndkey in *. rewrite app_nth1 by auto. auto.
     - (* check: must grow *)
       apply fframe_step; auto. unfold FLocal. cbn [ftpc ftodo hd_error]. destruct Hloc. eauto.
     - (* check: slot available *)
@@ -727,11 +727,11 @@ Section FProofs.
         * rewrite Hsl, Hh. reflexivity.
         * apply map_find_none. auto.
       + unfold FLocal. cbn [ftpc ftodo hd_error]. exists k. split; auto.
-        exists nd. split; [left; auto|]. unfold nval, nkey. rewrite nth_setn_eq by auto. auto.
+        exists nd. split; [left; auto|]. unfold ndval, ndkey. rewrite nth_setn_eq by auto. auto.
       + intros t0 Hnt. apply nth_setn_neq. auto.
       + lia.
       + intros i ok (nd' & H1 & H2 & H3). exists nd'. split; [right; auto|].
-        rewrite nval_setn_neq, nkey_setn_neq by auto. auto.
+        rewrite ndval_setn_neq, ndkey_setn_neq by auto. auto.
     - (* clear the slot *)
       destruct Hloc as (Hs & Hc & k0 & Ho & Hp).
       destruct (handle_some _ _ _ _ _ Hok Hs) as (nd & Hh & Hrest).
@@ -838,7 +838,7 @@ Section FProofs.
 
   (** [assigned st i]: some published node of the mapping carries index [i]. *)
   Definition assigned (st : fstate) (i : N) : Prop :=
-    exists nd, In nd (fmap st) /\ nval (fnodes st) nd = i.
+    exists nd, In nd (fmap st) /\ ndval (fnodes st) nd = i.
 
   Lemma pub_at_inj st h i1 i2 k1 k2 : FInvC st h ->
     pub_at (fnodes st) (fmap st) i1 (Some k1) -> pub_at (fnodes st) (fmap st) i2 (Some k2) ->
@@ -848,7 +848,7 @@ Section FProofs.
     destruct (FC_mem _ _ HC) as [m1 m2 m3 m4 m5 m6 m7 m8 m9 m10 m11].
     split; intros E.
     - assert (n1 = n2).
-      { apply (NoDup_map_inj (nkey (fnodes st)) (fmap st)); auto. congruence. }
+      { apply (NoDup_map_inj (ndkey (fnodes st)) (fmap st)); auto. congruence. }
       congruence.
     - destruct (m6 n1 A1) as (_ & _ & _ & _ & S1). destruct (m6 n2 A2) as (_ & _ & _ & _ & S2).
       rewrite B1 in S1. rewrite B2 in S2. rewrite E in S1. congruence.
@@ -1393,20 +1393,21 @@ Example flyweight_instance :
   let r := frun true 2 [[OIns 5; OIns 9; OFetch 1]; [OIns 5; OIns 13; OFetch 2]] (round_robin 60) in
   2 <> 0 /\ fquiescent (fst r) = true /\ fnext (fst r) = 4 /\ fnext (fst r) < END
   /\ fcount (fst r) = 4
-  /\ snd r = [(0, RIns 5 1 true); (1, RIns 5 1 false); (0, RIns 9 3 true); (0, RFetch 1 (Some 5));
-              (1, RIns 13 2 true); (1, RFetch 2 (Some 13))]%nat
+  /\ snd r = [(0%nat, RIns 5 1 true); (1%nat, RIns 5 1 false); (0%nat, RIns 9 3 true);
+              (0%nat, RFetch 1 (Some 5)); (1%nat, RIns 13 2 true); (1%nat, RFetch 2 (Some 13))]
   /\ iterate true (fst r) = [1; 2; 3]
   /\ map (fetch_now (fst r)) (iterate true (fst r)) = [Some 5; Some 13; Some 9].
 Proof. vm_compute. repeat split; try reflexivity. discriminate. Qed.
 
 (** A quiescent state in which a lane still holds a reserved, unused slot (lane 1 lost the race
-    for key 5): the iterator skips slot 1 and the nil slot 0. *)
+    for key 5 and keeps slot 2, which is below NextSlot = 3): the iterator skips it and the nil
+    slot 0. *)
 Example iterator_skips_reserved_slot :
   let r := frun true 4 [[OIns 5]; [OIns 5]] [0; 1; 0; 1; 0; 1; 0; 1; 0; 1; 1; 1; 0; 0; 1; 1]%nat in
   fquiescent (fst r) = true
-  /\ snd r = [(0, RIns 5 2 true); (1, RIns 5 2 false)]%nat
-  /\ map hslot (fhandles (fst r)) = [None; Some 1]
-  /\ iterate true (fst r) = [2].
+  /\ snd r = [(1%nat, RIns 5 1 false); (0%nat, RIns 5 1 true)]
+  /\ map hslot (fhandles (fst r)) = [None; Some 2] /\ fnext (fst r) = 3
+  /\ iterate true (fst r) = [1].
 Proof. vm_compute. repeat split; reflexivity. Qed.
 
 (** A state where lane 0 is in the safe section of tryGrow ([fgrow_preserves] applies). *)
@@ -1414,7 +1415,7 @@ Example reaches_fgrow :
   let st := fst (frun false 1 [[OIns 5; OIns 9]; [OIns 13]] [0; 0; 0; 0; 0; 0; 0; 0; 0; 0; 0; 0]%nat) in
   (0 < length (fthreads st))%nat /\ fpcof st 0%nat = FGrow /\ flanes st = [Some 0%nat; Some 0%nat]
   /\ fstep st 1%nat = None.
-Proof. vm_compute. repeat split; reflexivity. Qed.
+Proof. vm_compute. repeat split; auto. Qed.
 
 (* NOT PROVED (flyweight):
    - [Mapping.get] is one atomic step of the flyweight model; that the concrete hash map may be
